@@ -168,6 +168,15 @@ def procRun (isClient : Bool) : Option Building â†’ List Ev â†’ List Delivered â
     | none => none
     | some (cur', out) => procRun isClient cur' es (acc ++ out)
 
+/-- the processor driven `Parse` call by `Parse` call: the messages delivered during each call (what the harness
+    observes and the driver prints per line); `procCalls_flatten`: the same as one run over all the events -/
+def procCalls (isClient : Bool) : Option Building â†’ List (List Ev) â†’ Option (Option Building Ã— List (List Delivered))
+  | cur, [] => some (cur, [])
+  | cur, evs :: rest =>
+    match procRun isClient cur evs [] with
+    | none => none
+    | some (cur', out) => (procCalls isClient cur' rest).map fun r => (r.1, out :: r.2)
+
 /-- the messages delivered for an event list, starting with no message under construction -/
 def deliveredOf (isClient : Bool) (evs : List Ev) : List Delivered :=
   match procRun isClient none evs [] with
